@@ -57,7 +57,7 @@ PROPS = {
         "level_note": "PARTIAL: a theorem cannot exhibit real preemption inside a critical section or OS tearing of a write(2); those are sampled by the "
                       "real-thread runs, not proved. Assumes mutex critical section = atomic step, crossbeam channel FIFO per producer, one write_all per line.",
         "correspondence": "observed order of real concurrent runs vs Conc.ObsOk, and vs the sequential Flw model (directory snapshot)",
-        "rule": "seeded programs (2..8 threads x 3..25 lines of sizes 8..130) x modes sync direct/buffered/async(pool,msg) x all namings x size limits; "
+        "rule": "seeded programs (2..8 threads x 3..25 lines of sizes 8..130, now and then 9-40 kB; nested logging from a Display argument in a third of the threads) x modes sync direct/buffered/async(pool,msg) x all namings x size limits; "
                 "non-trivial = the run produced more than one file",
         "trusted": ["std::sync::Mutex, crossbeam-channel FIFO, crossbeam ArrayQueue", "OS: a single write(2) of a line is not torn"],
         "shards": 4,
@@ -68,10 +68,10 @@ PROPS = {
                       "that specification (atomic_update_consistent); the unlocked protocol of the original code is proved to violate this on the schedule "
                       "A1 A2 B2 B1 (race_witness; the defect was repaired, fix 2bbaa7c). Validation: all interleavings of 2 calls and all one-waiter "
                       "interleavings of 3 calls are executed on the real LoggerHandle by parking threads at the hook point between the two steps.",
-        "level_note": "Trusted: RwLock semantics; thread parking via the cfg-guarded hook point 'spec.updated'; 'blocked' is observed with a 60 ms timeout. "
+        "level_note": "Trusted: RwLock semantics; thread parking via the cfg-guarded hook points 'spec.enter' (before the lock is asked for) and 'spec.updated' (inside); 'blocked' is observed with a 60 ms timeout. "
                       "push/pop run through the same set_new_spec path (their stack part is per handle clone, C05).",
         "correspondence": "Spec.CState (lock model) vs real threads parked inside WritersHandle::set_new_spec",
-        "rule": "enumeration of interleavings (start_i before finish_i) of 2 and 3 calls with specs of different maximum levels; non-trivial = all cases (quiescence oracle evaluated)",
+        "rule": "enumeration of interleavings (start_i before finish_i) of 2 and 3 calls with specs of different maximum levels, plus calls parked before the lock while another runs from start to end with coinciding maximum levels; non-trivial = all cases (quiescence oracle evaluated)",
         "trusted": SPEC_TRUST,
         "shards": 2,
     },
@@ -85,7 +85,7 @@ PROPS = {
         "level_note": "Trusted: chrono's rendering of the timestamp text (passed to the model as data), serde_json/nu_ansi_term escaping rules as modelled "
                       "(validated byte-exactly), kv Debug rendering restricted to printable ASCII + common escapes.",
         "correspondence": "Fmt model vs flexi_logger::{default,opt,detailed,with_thread,colored_*,json}_format through FileLogWriter/Logger",
-        "rule": "seeded records (all present/absent field combinations, messages with quotes/backslashes/control/non-ASCII/multi-line, kv pairs) x 9 formats x LF/CRLF; "
+        "rule": "seeded records (all present/absent field combinations, messages with quotes/backslashes/control/non-ASCII/multi-line, kv pairs) x 9 formats x LF/CRLF x worker processes in UTC / non-UTC zones / with DeferredNow::force_utc(); same-format output pairs; recursive logging with CRLF; "
                 "non-trivial = at least one formatted line compared",
         "trusted": ["chrono strftime", "serde_json string escaping", "nu_ansi_term Style::paint"],
         "shards": 4,
@@ -100,7 +100,7 @@ PROPS = {
         "level_note": "A name repeated inside one brace list is delivered once per occurrence (documented reading: the statement quantifies over lists of distinct "
                       "names). One genuine defect repaired (fix 5bf7827: SyslogWriter ignored max_log_level). Custom LogWriters decide themselves what they emit.",
         "correspondence": "Spec.route/emitted/dupDecision vs FlexiLogger::log with additional writers (recording, FileLogWriter, SyslogWriter/UDP) and MultiWriter duplication (child process)",
-        "rule": "seeded brace lists over registered/unknown/_Default/empty names (mostly distinct) x 5 levels x specs x writer kinds and ceilings; duplication cases: "
+        "rule": "seeded brace lists over registered/unknown/_Default/empty names (mostly distinct) x 5 levels x specs x writer kinds and ceilings (also: no additional writer at all) x optional forwarding LogLineFilter; duplication cases: "
                 "all 7 Duplicate values for stderr and stdout with run-time adaptation; non-trivial = a delivery or duplication decision was checked by the oracle",
         "trusted": SPEC_TRUST + ["loopback UDP delivers a datagram before the next recv"],
         "shards": 8,
@@ -113,7 +113,7 @@ PROPS = {
                       "boundaries; after flush/shutdown everything is in the files. The model is tied to the real FileLogWriter by a differential check "
                       "(virtual clock hook; READ/PARTS/SNAP/LINK after flush points and in direct mode after writes) plus a stream oracle on the real files.",
         "level_note": "Trusted: Lean kernel; OS file semantics, std BufWriter, chrono rendering of stamps (modelled); the model is validated against the code on "
-                      "generated histories only (bounded). Custom timestamp formats are covered by the correspondence (3 formats), proofs use the structural "
+                      "generated histories only (bounded). Custom timestamp formats are covered by the correspondence (year-first formats, and a date-only format `r%Y-%m-%d` with many rotations per name period, for which the driver hands the model the clock truncated to the day), proofs use the structural "
                       "order of names (rendering order-preserving for 4-digit years, index < 100000, suffix sorting before 'restart'). No cleanup (as the property says).",
         "correspondence": "Flw model (step/readAll/parts/render) vs real FileLogWriter on real files with the virtual clock",
         "rule": "seeded histories: record lengths {1,2,N-1,N,N+1,3N+7,cap+1,random} x N in {0,1,5,16,40,64} x namings x Size/Age/AgeOrSize x cap {none,1,4,8,N,8192} x "
@@ -137,7 +137,7 @@ PROPS = {
                       "are in strictly later periods (no rotation inside a period), created_at = instant of the first record of the current file (age_rule_history, all "
                       "namings/capacities via refines_all); Age.trunc on the packed civil stamp is exactly the year/month/day[/hour/minute/second] comparison of the code "
                       "(trunc_iff_fields); age-or-size = disjunction. Differential check under a virtual clock with second/minute/hour/day/month jumps, leap day, year end.",
-        "level_note": "Trusted: chrono's civil-time arithmetic (the harness converts stamps; TZ=UTC in the quick tier); non-monotone local time at DST fall-back is outside "
+        "level_note": "Trusted: chrono's civil-time arithmetic (the harness converts stamps); worker processes run in UTC and in fixed-offset zones +05:30, -03:30, +05:45, +08:45, -09:30, +14, -12 (the virtual clock is local civil time, the model is zone-independent); non-monotone local time at DST fall-back is outside "
                       "(stated assumption); file birth times are replaced by the creation-time table hook under virtual time.",
         "correspondence": "Flw model vs real FileLogWriter under the virtual clock hook",
         "rule": "age-only and age-or-size(inactive) criteria x 4 ages x namings x caps, append restarts in the same/a later period; non-trivial = rotation or restart happened",
@@ -165,7 +165,7 @@ PROPS = {
                       "flush() is claimed for the synchronous modes only (as the property says). Known finding C04-async-clone-drop (not repaired, see known_findings.json).",
         "correspondence": "Flw model vs Logger::build() + LoggerHandle::{flush,shutdown,clone,drop}; child process stdout/stderr vs the lines logged",
         "rule": "modes direct/buf/bufflush/async x with/without rotation x record volumes above and below the buffer x clone/drop/flush at seeded positions, ending by shutdown() "
-                "or drop of the last handle; 40 child-process runs to stdout/stderr; non-trivial = more than one record reached the observation point",
+                "two overlapping shutdown() calls with a slowed writer thread, or drop of the last handle; 40 child-process runs to stdout/stderr; non-trivial = more than one record reached the observation point",
         "trusted": ["std::io::BufWriter", "crossbeam channel FIFO", "process exit does not lose data already handed to write(2)"],
         "shards": 8,
     },
@@ -176,7 +176,8 @@ PROPS = {
                       "collision-free stamp), NumbersDirect (full), TimestampsDirect (guarded: an appending run must find the newest stamp without .restart siblings; the "
                       "unguarded statement is proved FALSE = known finding), non-rotating writer with append; no existing name is ever reused (fresh_names_*). "
                       "Differential check on multi-run histories incl. same-second restarts; stream oracle across runs incl. the documented truncation.",
-        "level_note": "Theorems are without cleanup; restarts combined with cleanup/compression are validated by the correspondence check (C07 generator) only. "
+        "level_note": "Theorems are without cleanup; restarts combined with cleanup/compression are validated by the correspondence check only (C06's own histories with cleanup strategies, C07's generator). "
+                      "Formats: the standard one, two more year-first ones, and a day-first custom format whose text order is not the time order (without cleanup; directed histories across month ends). "
                       "Two genuine defects repaired (fix 1fbd892 gz index, fix bec99bb same-second truncation); one known finding (TimestampsDirect+append).",
         "correspondence": "Flw model (initState from the directory as it is) vs new FileLogWriter instances on the same directory",
         "rule": "1..4 restarts per history x append on/off per run x namings x criteria x forced rotations x restarts in the same second or 1s..1d later; "
@@ -197,7 +198,7 @@ PROPS = {
                       "Out of the random domain (documented): suffix 'gz', exhausted index space (>= 2^32-1).",
         "correspondence": "Spec.route/enabledQuery/parse vs the real logger on nasty inputs; robustness histories: only 'the call returns' is predicted",
         "rule": "half records/spec strings (22 nasty targets incl. 5000-char and 100 KB messages, arbitrary Unicode spec strings), half file-name configurations x "
-                "directory contents (24 nasty name fragments) x histories with rotations and restarts; 6 recursion runs; non-trivial = all executed cases",
+                "directory contents (24 nasty name fragments) x histories with rotations and restarts; 24 recursion runs (nesting depth 1, 2, 3, 5); non-trivial = all executed cases",
         "trusted": ["catch_unwind observes every panic of the calling thread", "watchdog 4 s + 8 s re-run for hang detection"],
         "shards": 8,
     },
@@ -238,13 +239,18 @@ PROPS = {
                       "(cleanup_keeps_newest), hence a contiguous tail of the stream on record boundaries (cleanup_tail); at most kk plain and m compressed files, compressed ones "
                       "older than every plain one (cleanup_bounds, gz_older_than_plain); compression is lossless: an original disappears only beyond the delete limit or with its "
                       ".gz twin holding the same data (compress_lossless, rotation_lossless); the file being written is never removed or compressed (current_spared_every_step; "
-                      "witness that the k=0 bump for direct namings is necessary). Differential check with synchronous cleanup after every op incl. restarts and real gzip round trip.",
+                      "witness that the k=0 bump for direct namings is necessary). Differential check with synchronous cleanup after every op incl. restarts and real gzip round trip, "
+                      "and with the cleanup thread under four schedules: lock-step (the model's schedule, full comparison), free-running, and two adversarial ones that make the "
+                      "thread work off its backlog exactly inside the next rotation (stream and partition compared, tail/bounds oracles after shutdown).",
         "level_note": "Proved for synchronous cleanup in a single run from an empty directory; the background cleanup thread is covered by the same final-state argument only "
-                      "informally (confluence: the last pass sees the whole directory) and by the thorough tier; restarts + cleanup: differential check. gz = tagged identity in the "
-                      "model, byte-exactness checked by decompression. Three known findings (index >= 100000, suffix sorting after 'restart', suffix-less files never compressed).",
+                      "informally (confluence: the last pass sees the whole directory; stale passes are conservative) and by the scheduled runs — 'all interleavings' of the thread "
+                      "are sampled (lock-step, free-running, two adversarial windows), not proved; restarts + cleanup: differential check. gz = tagged identity in the model, "
+                      "byte-exactness checked by decompression. One genuine defect found by these schedules and repaired (fix dfc7273: buffered tail of the rotated file lost when "
+                      "the cleanup thread overtakes a rotation). Four known findings (index >= 100000, suffix sorting after 'restart', suffix-less files never compressed, "
+                      "day-first custom format).",
         "correspondence": "Flw model (listing/cleanupLoop) vs real cleanup incl. flate2 compression, SNAP after every write in direct mode",
-        "rule": "k,m in 0..3 x all namings x suffix present/absent x criteria x forced rotations x 0..2 restarts; non-trivial = rotation or restart happened",
-        "trusted": ["flate2 gzip round trip (checked by decompression)", "OS remove/create"],
+        "rule": "k,m in 0..3 x all namings x suffix present/absent x criteria x forced rotations x 0..2 restarts x cleanup inline / thread lock-step / free-running / adversarial; non-trivial = rotation or restart happened",
+        "trusted": ["flate2 gzip round trip (checked by decompression)", "OS remove/create", "hook points cleanup.thread.send/act/done used to schedule the cleanup thread"],
     },
     "C11": {
         "level_text": "Kernel-checked on the instrumented model (FlwTrace, first projection = the model: trace_projection): in direct mode, at EVERY named point between two "
@@ -273,8 +279,8 @@ PROPS = {
                       "behaviour identical to the run without them).",
         "level_note": "chrono's verdict on a timestamp infix is a parameter (tsOk) supplied by the harness. Two defects repaired (0f937be, 65723b0), one known finding (C14-extra-dots).",
         "correspondence": "Names.existingLogFiles/acceptFile vs FileLogWriter::existing_log_files on directories with near-miss names; Flw model (which ignores foreign files) vs the real writer with foreign files present",
-        "rule": "near-miss generator (22 mutations of family names: longer/shorter basename, missing separator, other discriminant incl. infix-like, other suffix, trailing extension, "
-                "infix garbage, too few digits, multi-byte, impossible dates, restart markers without number, sub-directory) x namings x cleanup x restarts; non-trivial = rotation/restart or listing compared",
+        "rule": "near-miss generator (43 mutations of family names, those the code's own suffix test accepts excluded as known finding: longer/shorter basename, missing separator, other discriminant incl. infix-like, other suffix, trailing extension, "
+                "infix garbage, too few digits, multi-byte, impossible dates, restart markers without number, sub-directory, what lenient number/date parsers accept (sign, blank, non-ASCII digits, unpadded fields), extensions that merely end with the suffix letters) x namings x cleanup x restarts; non-trivial = rotation/restart or listing compared",
         "trusted": ["chrono parse_from_str (tsOk)"],
     },
     "C16": {
@@ -285,7 +291,7 @@ PROPS = {
                       "(mem_existingLogFiles, existing_exact). Differential check: exact names (SNAP), symlink target after every observation, existing_log_files for all "
                       "selectors incl. before the first write of a new logger, try_from paths with a writer built from them.",
         "level_note": "Three defects repaired (763ea2b bare file name, c5fbd22 start time recomputed, bcb4371 listing before first write). The start-time part is pinned "
-                      "(suppress_timestamp) in the differential histories; custom timestamp formats: 3 formats.",
+                      "(suppress_timestamp) in the differential histories; custom timestamp formats: 3 year-first formats; the order lemmas carry the hypothesis 'year-first format' (stamps_order_dayfirst_violation_witness shows the full statement false for a day-first format).",
         "correspondence": "Names.render/existingLogFiles/tryFromName + Flw model (names, symlink) vs the real writer and FileSpec",
         "rule": "all name-part combinations incl. empty basename, dotted/underscore names, names containing '_r' x namings x selectors x histories with rotation, cleanup, compression, restarts; "
                 "10 try_from paths incl. sub-directories; non-trivial = all",
